@@ -25,7 +25,14 @@ import (
 	"verif/harness/ev"
 )
 
-const verifDir = "/verif"
+// verifDir is the root of the verification tree (set by the check wrapper; snapshots made
+// by `vp run` live elsewhere).
+var verifDir = func() string {
+	if d := os.Getenv("VERIF_DIR"); d != "" {
+		return d
+	}
+	return "/verif"
+}()
 
 type propCfg struct {
 	Race         bool
